@@ -20,3 +20,9 @@ def merge(level: int, extra: str) -> frozenset[str]:
 
 def has(level: int, tag: str) -> bool:
     return tag in tags(level)
+
+
+def size(labels: set[str]) -> int:
+    if len(labels) > 2:
+        return 3
+    return len(labels)
